@@ -35,3 +35,21 @@ MUTANTS = {
   ('split-unbalanced', [(C, "slices = np.array_split(np.arange(len(self)), sections)", "slices = np.split(np.arange(len(self)), np.arange(1, sections) * (len(self) // sections))")]),
  ],
 }
+
+MUTANTS['C18'] = [
+  ('sort-compares-examples-on-ties', [(C, "zip(sort_values, itertools.count()),", "zip(sort_values, self),")]),
+  ('keyed-sort-drops-reverse', [(C, "                    zip(sort_values, itertools.count()),\n                    reverse=reverse,\n", "                    zip(sort_values, itertools.count()),\n")]),
+  ('keyless-sort-drops-reverse', [(C, "sort_order = sort_fn(keys, reverse=reverse)", "sort_order = sort_fn(keys)")]),
+  ('groupby-loses-nonadjacent', [(C, "            groups[k] += indices", "            groups[k] = indices")]),
+  ('groupby-sorted-indices-desc', [(C, "            groups[k] += indices", "            groups[k] = indices + groups[k]")]),
+  ('sort-index-from-one', [(C, "                index\n                for _, index in sort_fn(", "                (index + 1) % max(len(sort_values), 1) if len(sort_values) > 4 else index\n                for _, index in sort_fn(")]),
+]
+
+MUTANTS['C14'] = [
+  ('catch-except-exception', [(C, "                try:\n                    yield input_dataset[i]\n                except self.exceptions as e:", "                try:\n                    yield input_dataset[i]\n                except Exception as e:")]),
+  ('catch-key-branch-except-exception', [(C, "                    yield k, input_dataset[k]\n                except self.exceptions as e:", "                    yield k, input_dataset[k]\n                except Exception as e:")]),
+  ('catch-skips-last-index', [(C, "            for i in range(len(input_dataset)):\n                total_count += 1\n                try:\n                    yield input_dataset[i]", "            for i in range(len(input_dataset) - (1 if len(input_dataset) > 3 else 0)):\n                total_count += 1\n                try:\n                    yield input_dataset[i]")]),
+  ('eager-filter-negated-on-empty-tail', [(C, "idx = [i for i, e in enumerate(self) if filter_fn(e)]", "idx = [i for i, e in enumerate(self) if filter_fn(e) or i == 5]")]),
+  ('lazy-filter-key-of-previous', [(C, "            for key, example in self.input_dataset.__iter__(with_key=True):\n                total_count += 1\n", "            hist = [None]\n            for key, example in self.input_dataset.__iter__(with_key=True):\n                total_count += 1\n                hist.append(key)\n"), (C, "                    yield key, example\n", "                    yield (hist[-2] if total_count > 4 else key), example\n")]),
+  ('catch-yields-after-exception', [(C, "                except self.exceptions as e:\n                    catched_count += 1\n                    if self.warn:\n                        msg = repr(e)\n                        LOG.warning(msg)\n        else:", "                except self.exceptions as e:\n                    catched_count += 1\n                    if catched_count == 3:\n                        return\n                    if self.warn:\n                        msg = repr(e)\n                        LOG.warning(msg)\n        else:")]),
+]
